@@ -208,14 +208,15 @@ fn parse_content(schema: &Schema, nrows: usize, t: &[BigInt]) -> Vec<Vec<Val>> {
     schema.fields().iter().map(|f| (0..nrows).map(|_| parse_val(f.data_type(), t, &mut p)).collect()).collect()
 }
 
-/// c05.roundtrip : [config] [partition] [schema] [nrows, content..] -> [schema] [nrows, content..]
+/// c05.roundtrip : [config] [partition] [schema as read back] [nrows, content..] [schema as written, when different] -> [schema] [nrows, content..]
 pub fn run_roundtrip(a: &Args) -> Option<Args> {
     let cfg = to_i64s(&a[0]);
     let parts: Vec<usize> = to_i64s(&a[1]).iter().map(|x| *x as usize).collect();
-    let schema: SchemaRef = Arc::new(dec_schema(&to_i64s(&a[2])));
+    let schema: SchemaRef = Arc::new(dec_schema(&to_i64s(if a.len() > 4 && !a[4].is_empty() { &a[4] } else { &a[2] })));
     let nrows = usize::try_from(&a[3][0]).unwrap();
     let cols = parse_content(&schema, nrows, &a[3][1..]);
     let mut layout = Rng::new(cfg[C_LAYOUT_SEED] as u64);
+    LISTVIEW_ASCENDING.with(|c| c.set(cfg[C_CDC] > 0 && cfg[C_FLAGS] & 64 == 0));
     let batch = build_batch(&schema, &cols, &mut layout);
     // harness self-check: the arrays built denote the logical input
     {
@@ -237,7 +238,7 @@ pub fn run_roundtrip(a: &Args) -> Option<Args> {
 
 // ------------------------------------------------------------------------------------------ levels
 // c05.levels / c05.assemble : [path: 0 Req 1 Opt 2 Rep] [tokens] [layout: seed, kinds of the Rep nodes.., cfg..]
-//   path -> arrow type: leaf Int64; Opt/Req set the nullability of the next node; Rep = List | LargeList | FixedSizeList | Map
+//   path -> arrow type: leaf Int64; Opt/Req set the nullability of the next node; Rep = List | LargeList | FixedSizeList | Map | ListView | LargeListView
 //   (a Req or Opt that is followed by neither Rep nor the leaf is a struct with one observed child, plus optional siblings)
 fn levels_field(path: &[i64], kinds: &[i64], ki: &mut usize, depth: usize, fsl: &[i64], r: &mut Rng) -> Field {
     // consume the nullability marker of this node
@@ -252,6 +253,8 @@ fn levels_field(path: &[i64], kinds: &[i64], ki: &mut usize, depth: usize, fsl: 
                 0 => Field::new(name, DataType::List(Arc::new(child.with_name("item"))), nullable),
                 1 => Field::new(name, DataType::LargeList(Arc::new(child.with_name("element"))), nullable),
                 2 => Field::new(name, DataType::FixedSizeList(Arc::new(child.with_name("item")), size as i32), nullable),
+                4 => Field::new(name, DataType::ListView(Arc::new(child.with_name("item"))), nullable),
+                5 => Field::new(name, DataType::LargeListView(Arc::new(child.with_name("item"))), nullable),
                 _ => {
                     let entries = Field::new("entries", DataType::Struct(Fields::from(vec![Field::new("keys", DataType::Int32, false), child.with_name("values")])), false);
                     Field::new(name, DataType::Map(Arc::new(entries), false), nullable)
@@ -278,7 +281,8 @@ fn tokens_to_val(f: &Field, path: &[i64], t: &[i64], p: &mut usize, r: &mut Rng)
     };
     match (f.data_type(), rest.first()) {
         (DataType::Int64, None) => { let v = t[*p]; *p += 1; Val::Int(v.into()) }
-        (DataType::List(c), Some(2)) | (DataType::LargeList(c), Some(2)) | (DataType::FixedSizeList(c, _), Some(2)) => {
+        (DataType::List(c), Some(2)) | (DataType::LargeList(c), Some(2)) | (DataType::FixedSizeList(c, _), Some(2))
+        | (DataType::ListView(c), Some(2)) | (DataType::LargeListView(c), Some(2)) => {
             let n = t[*p] as usize; *p += 1;
             Val::List((0..n).map(|_| tokens_to_val(c, &rest[1..], t, p, r)).collect())
         }
@@ -306,6 +310,8 @@ fn val_tokens(arr: &dyn Array, i: usize, path: &[i64], out: &mut Vec<i64>) {
         DataType::List(_) => { let l = arr.as_list::<i32>().value(i); out.push(l.len() as i64); for j in 0..l.len() { val_tokens(l.as_ref(), j, &rest[1..], out); } }
         DataType::LargeList(_) => { let l = arr.as_list::<i64>().value(i); out.push(l.len() as i64); for j in 0..l.len() { val_tokens(l.as_ref(), j, &rest[1..], out); } }
         DataType::FixedSizeList(_, _) => { let l = arr.as_fixed_size_list().value(i); out.push(l.len() as i64); for j in 0..l.len() { val_tokens(l.as_ref(), j, &rest[1..], out); } }
+        DataType::ListView(_) => { let l = arr.as_list_view::<i32>().value(i); out.push(l.len() as i64); for j in 0..l.len() { val_tokens(l.as_ref(), j, &rest[1..], out); } }
+        DataType::LargeListView(_) => { let l = arr.as_list_view::<i64>().value(i); out.push(l.len() as i64); for j in 0..l.len() { val_tokens(l.as_ref(), j, &rest[1..], out); } }
         DataType::Map(_, _) => { let l = arr.as_map().value(i); out.push(l.len() as i64); for j in 0..l.len() { val_tokens(l.column(1).as_ref(), j, &rest[1..], out); } }
         DataType::Struct(_) => { let s = arr.as_struct(); let c = s.columns().iter().zip(s.fields()).find(|(_, f)| !f.name().starts_with("sib_")).unwrap().0; val_tokens(c.as_ref(), i, rest, out); }
         _ => out.push(-999),
@@ -332,6 +338,7 @@ pub fn run_levels(op: &str, a: &Args) -> Option<Args> {
     let mut cols: Vec<Vec<Val>> = Vec::new();
     for f in &extra { cols.push((0..vals.len()).map(|_| gen_val(f.data_type(), true, &mut r, 30)).collect()); }
     cols.push(vals);
+    LISTVIEW_ASCENDING.with(|c| c.set(cfg[C_CDC] > 0 && cfg[C_FLAGS] & 64 == 0));
     let batch = build_batch(&schema, &cols, &mut r);
     let props = writer_props(cfg, &schema);
     let n = batch.num_rows();
